@@ -41,6 +41,12 @@ pub enum Op {
     MsgPointV,
     /// both roles append the point's encoding as application data (the undeviated statement)
     MsgPointVHonest,
+    /// commit the same value under the same blinding factor as the first commitment (an equal point)
+    CommitDup,
+    /// deviation: the verifier has one more commitment, equal to the first one
+    CommitExtraDupV,
+    /// deviation: the prover repeats the first commitment, the verifier's list lacks the repetition
+    CommitDupSkipV,
     /// allocate_multiplier
     AllocMul,
     /// allocate (single variable)
@@ -146,7 +152,7 @@ impl Shape {
         (n1, n2)
     }
     pub fn commits(&self) -> usize {
-        self.phase1.iter().filter(|o| matches!(o, Op::Commit | Op::CommitZero | Op::CommitSkipV)).count()
+        self.phase1.iter().filter(|o| matches!(o, Op::Commit | Op::CommitZero | Op::CommitSkipV | Op::CommitDup | Op::CommitDupSkipV)).count()
     }
     pub fn padded(&self) -> usize {
         let (a, b) = self.gates();
@@ -193,6 +199,9 @@ pub struct Shared<G: AffineRepr> {
     pub lc_width: usize,
     pub literal_witness: bool,
     pub lit_count: usize,
+    /// indices of the registered closures in the order the current role ran them / the prover ran them
+    pub closure_runs: Vec<usize>,
+    pub closure_runs_prover: Vec<usize>,
     pub err: ErrPlan,
     pub vars: Vec<(Variable<FOf<G>>, FOf<G>)>,
     pub v: Vec<FOf<G>>,
@@ -214,6 +223,8 @@ pub struct Shared<G: AffineRepr> {
     pub errors: Vec<String>,
     /// verifier-side deviation: shift the k-th replayed draw of a kind by `dev_delta`
     pub dev_draw: Option<(String, usize)>,
+    /// statement deviation on EVERY draw of a kind: the k-th draw of `kind` is shifted by `dev_all[kind][k]`
+    pub dev_all: std::collections::HashMap<String, Vec<FOf<G>>>,
     pub dev_delta: Option<FOf<G>>,
     pub kind_count: std::collections::HashMap<String, usize>,
     /// point committed by a verifier-only extra commitment
@@ -248,6 +259,9 @@ impl<G: AffineRepr> Shared<G> {
                 if dk == kind && *di == *c {
                     v += d;
                 }
+            }
+            if let Some(d) = self.dev_all.get(kind).and_then(|ds| ds.get(*c)) {
+                v += *d;
             }
             *c += 1;
             v
@@ -335,7 +349,7 @@ impl<G: AffineRepr> Shared<G> {
 
 /// What the driver needs from a constraint system beyond the public trait.
 pub trait RoleCS<G: AffineRepr>: ConstraintSystem<FOf<G>> {
-    fn role_commit(&mut self, _sh: &mut Shared<G>, _zero: bool) -> Variable<FOf<G>> {
+    fn role_commit(&mut self, _sh: &mut Shared<G>, _mode: u8) -> Variable<FOf<G>> {
         panic!("commit in the randomized phase")
     }
     fn role_set_gate(&mut self, _i: usize, _l: FOf<G>, _r: FOf<G>, _o: FOf<G>) {}
@@ -345,8 +359,13 @@ pub trait RoleCS<G: AffineRepr>: ConstraintSystem<FOf<G>> {
 }
 
 impl<'g, 't, G: AffineRepr> RoleCS<G> for Prover<'g, G, &'t mut Transcript> {
-    fn role_commit(&mut self, sh: &mut Shared<G>, zero: bool) -> Variable<FOf<G>> {
-        let (v, vb) = if zero { (FOf::<G>::zero(), FOf::<G>::zero()) } else { (sh.draw("v"), sh.draw("vb")) };
+    fn role_commit(&mut self, sh: &mut Shared<G>, mode: u8) -> Variable<FOf<G>> {
+        let (v, vb) = match mode {
+            1 => (FOf::<G>::zero(), FOf::<G>::zero()),
+            // the same value under the same blinding factor as the first commitment (an equal point)
+            2 if !sh.v.is_empty() => (sh.v[0], sh.v_blinding[0]),
+            _ => (sh.draw("v"), sh.draw("vb")),
+        };
         let (V, var) = self.commit(v, vb);
         sh.v.push(v);
         sh.v_blinding.push(vb);
@@ -367,8 +386,12 @@ impl<'g, 't, G: AffineRepr> RoleCS<G> for RandomizingProver<'g, G, &'t mut Trans
     }
 }
 impl<'t, G: AffineRepr> RoleCS<G> for Verifier<G, &'t mut Transcript> {
-    fn role_commit(&mut self, sh: &mut Shared<G>, zero: bool) -> Variable<FOf<G>> {
-        let (v, _vb) = if zero { (FOf::<G>::zero(), FOf::<G>::zero()) } else { (sh.draw("v"), sh.draw("vb")) };
+    fn role_commit(&mut self, sh: &mut Shared<G>, mode: u8) -> Variable<FOf<G>> {
+        let (v, _vb) = match mode {
+            1 => (FOf::<G>::zero(), FOf::<G>::zero()),
+            2 if !sh.v.is_empty() => (sh.v[0], FOf::<G>::zero()),
+            _ => (sh.draw("v"), sh.draw("vb")),
+        };
         let j = sh.v.len();
         sh.v.push(v);
         let V = sh.verifier_commitments[j];
@@ -395,9 +418,31 @@ pub fn run_ops<G: AffineRepr, CS: RoleCS<G>>(cs: &mut CS, ops: &[Op], shr: &Rc<R
     let prover = sh.is_prover;
     for op in ops {
         match op {
-            Op::Commit | Op::CommitZero => {
-                let var = cs.role_commit(sh, *op == Op::CommitZero);
+            Op::Commit | Op::CommitZero | Op::CommitDup => {
+                let var = cs.role_commit(sh, match op { Op::CommitZero => 1, Op::CommitDup => 2, _ => 0 });
                 sh.handles.push(show_var(&var));
+            }
+            Op::CommitExtraDupV => {
+                if !prover && !sh.verifier_commitments.is_empty() {
+                    // verifier only: one more commitment, equal to the first one
+                    let dup = sh.verifier_commitments[0];
+                    sh.verifier_commitments.push(dup);
+                    let var = cs.role_commit(sh, 2);
+                    sh.vars.pop();
+                    sh.handles.push(show_var(&var));
+                }
+            }
+            Op::CommitDupSkipV => {
+                if prover {
+                    let var = cs.role_commit(sh, 2);
+                    sh.handles.push(show_var(&var));
+                } else {
+                    // the verifier's list of commitments lacks the repeated one
+                    let j = sh.v.len();
+                    if j < sh.verifier_commitments.len() {
+                        sh.verifier_commitments.remove(j);
+                    }
+                }
             }
             Op::CommitExtraV => {
                 if !prover {
@@ -410,7 +455,7 @@ pub fn run_ops<G: AffineRepr, CS: RoleCS<G>>(cs: &mut CS, ops: &[Op], shr: &Rc<R
                     sh.tape.insert(sh.pos, FOf::<G>::zero());
                     sh.tape.insert(sh.pos, FOf::<G>::zero());
                     let _ = j;
-                    let var = cs.role_commit(sh, false);
+                    let var = cs.role_commit(sh, 0);
                     sh.tape = saved.0;
                     sh.pos = saved.1;
                     // the extra variable is not referenced by any constraint
@@ -420,7 +465,7 @@ pub fn run_ops<G: AffineRepr, CS: RoleCS<G>>(cs: &mut CS, ops: &[Op], shr: &Rc<R
             }
             Op::CommitSkipV => {
                 if prover {
-                    let var = cs.role_commit(sh, false);
+                    let var = cs.role_commit(sh, 0);
                     sh.handles.push(show_var(&var));
                 } else {
                     let _ = sh.draw("v");
@@ -443,7 +488,7 @@ pub fn run_ops<G: AffineRepr, CS: RoleCS<G>>(cs: &mut CS, ops: &[Op], shr: &Rc<R
                     let saved = (sh.tape.clone(), sh.pos);
                     sh.tape.insert(sh.pos, FOf::<G>::zero());
                     sh.tape.insert(sh.pos, FOf::<G>::zero());
-                    let var = cs.role_commit(sh, false);
+                    let var = cs.role_commit(sh, 0);
                     sh.tape = saved.0;
                     sh.pos = saved.1;
                     sh.vars.pop();
@@ -718,19 +763,29 @@ pub fn run_ops<G: AffineRepr, CS: RoleCS<G>>(cs: &mut CS, ops: &[Op], shr: &Rc<R
     }
 }
 
+thread_local! {
+    static EXT_LOG: RefCell<Vec<u8>> = RefCell::new(Vec::new());
+}
+/// every byte the caller's RNG handed out during the most recent `prove_shape`
+pub fn ext_log() -> Vec<u8> {
+    EXT_LOG.with(|l| l.borrow().clone())
+}
+/// The caller's external randomness; all output goes through `fill_bytes` and is logged.
 pub struct ExtRng(pub rand_chacha::ChaChaRng);
 impl rand_core::RngCore for ExtRng {
     fn next_u32(&mut self) -> u32 {
-        self.0.next_u32()
+        rand_core::impls::next_u32_via_fill(self)
     }
     fn next_u64(&mut self) -> u64 {
-        self.0.next_u64()
+        rand_core::impls::next_u64_via_fill(self)
     }
     fn fill_bytes(&mut self, d: &mut [u8]) {
-        self.0.fill_bytes(d)
+        self.0.fill_bytes(d);
+        EXT_LOG.with(|l| l.borrow_mut().extend_from_slice(d));
     }
     fn try_fill_bytes(&mut self, d: &mut [u8]) -> Result<(), rand_core::Error> {
-        self.0.try_fill_bytes(d)
+        self.fill_bytes(d);
+        Ok(())
     }
 }
 impl rand_core::CryptoRng for ExtRng {}
@@ -768,6 +823,8 @@ pub fn new_shared<G: AffineRepr>(shape: &Shape, err: &ErrPlan, src: Box<dyn Vals
         lc_width: shape.lc_width,
         literal_witness: shape.literal_witness,
         lit_count: 0,
+        closure_runs: vec![],
+        closure_runs_prover: vec![],
         err: err.clone(),
         vars: vec![],
         v: vec![],
@@ -784,6 +841,7 @@ pub fn new_shared<G: AffineRepr>(shape: &Shape, err: &ErrPlan, src: Box<dyn Vals
         len_trace: vec![],
         errors: vec![],
         dev_draw: None,
+        dev_all: Default::default(),
         dev_delta: None,
         kind_count: Default::default(),
         extra_commitment: None,
@@ -810,17 +868,19 @@ where
         let mut prover = Prover::new(pc, &mut pt);
         let at = shape.register_at.unwrap_or(shape.phase1.len()).min(shape.phase1.len());
         run_ops(&mut prover, &shape.phase1[..at], shr, false);
-        for ops in shape.phase2.iter() {
+        for (cj, ops) in shape.phase2.iter().enumerate() {
             let ops = ops.clone();
             let sh2 = shr.clone();
             prover
                 .specify_randomized_constraints(move |rcs| {
+                    sh2.borrow_mut().closure_runs.push(cj);
                     run_ops(rcs, &ops, &sh2, true);
                     Ok(())
                 })
                 .unwrap();
         }
         run_ops(&mut prover, &shape.phase1[at..], shr, false);
+        EXT_LOG.with(|l| l.borrow_mut().clear());
         let mut ext = ExtRng(rand_chacha::ChaChaRng::seed_from_u64(ext_seed));
         prover.prove_and_return_transcript(&mut ext, bp).map(|(p, _t)| p)
     };
@@ -828,10 +888,20 @@ where
 }
 
 /// Switch the shared state from the prover pass to the verifier pass.
+/// true when a role ran every registered closure exactly once, in registration order
+pub fn closures_as_registered(shape: &Shape, runs: &[usize]) -> bool {
+    runs.iter().copied().eq(0..shape.phase2.len())
+}
+
 pub fn rewind_for_verifier<G: AffineRepr>(shr: &Rc<RefCell<Shared<G>>>) {
     let sh = &mut *shr.borrow_mut();
     sh.recording = false;
     sh.pos = 0;
+    if sh.is_prover {
+        sh.closure_runs_prover = std::mem::take(&mut sh.closure_runs);
+    } else {
+        sh.closure_runs.clear();
+    }
     sh.is_prover = false;
     let seed = match sh.coef {
         Coef::Mixed(s) => s,
@@ -876,6 +946,7 @@ pub fn fork_for_verifier<G: AffineRepr + 'static>(shape: &Shape, shr: &Rc<RefCel
         d.v_blinding = src.v_blinding.clone();
         d.extra_commitment = src.extra_commitment;
         d.dev_draw = src.dev_draw.clone();
+        d.dev_all = src.dev_all.clone();
         d.dev_delta = src.dev_delta;
     }
     rewind_for_verifier(&f);
@@ -909,11 +980,12 @@ pub fn build_verifier<'t, G: AffineRepr + 'static>(
     let mut verifier = Verifier::new(vt);
     let at = shape.register_at.unwrap_or(shape.phase1.len()).min(shape.phase1.len());
     run_ops(&mut verifier, &shape.phase1[..at], shr, false);
-    for ops in shape.phase2.iter() {
+    for (cj, ops) in shape.phase2.iter().enumerate() {
         let ops = ops.clone();
         let sh2 = shr.clone();
         verifier
             .specify_randomized_constraints(move |rcs| {
+                sh2.borrow_mut().closure_runs.push(cj);
                 run_ops(rcs, &ops, &sh2, true);
                 Ok(())
             })
